@@ -127,6 +127,24 @@ fn registry() -> Vec<CheckDef> {
         run: kvlib::c11::run,
         replay: kvlib::c11::replay,
         assumptions: &["oracle: KvModel (latest set, else first put since absent) + DirExplainer on the directory listing captured by the shim at opendir time", "handles are used one at a time (sequential history); load estimates diverge between handles", "real clock, nanosecond timestamps on tmpfs"],
+    },
+    CheckDef {
+        id: "C09",
+        level: "exploration",
+        workers: 16,
+        rule: "proptest-generated histories of 1-25 steps (+ a final forced maintenance of every directory) over 4 keys on {plain, sharded(2), stacked over plain} with per-directory capacity {2, 3, never}; steps = virtual clock advance {0, 1ns, 1ms, 0.6s, 1s, 3s} then {set, put, get and read the handle, get without reading it, touch, ensure, forced maintenance (prune to n-1)} with the trigger scripted to fire or not; atime policy {kernel default with the real clock, emulated relatime, noatime, strict} x stored-timestamp granularity {1ns, 1s, 2s} x 4 clock phases; non-trivial = the history has a read-type operation and a later maintenance in which a read mark decided the victim; distinct by hash of the history",
+        run: kvlib::c09::run,
+        replay: kvlib::c09::replay,
+        assumptions: &["emulated cells: the shim opens every file with O_NOATIME and applies the atime policy itself at the first read through a descriptor (relatime: atime <= mtime => atime := now), truncates every timestamp written or reported to the granularity, and serves CLOCK_REALTIME from a virtual clock", "read mark encoding per the documentation: atime >= mtime", "maintenance inside an operation is judged by DirExplainer on the listing captured at opendir time"],
+    },
+    CheckDef {
+        id: "C03",
+        level: "fault_enumeration",
+        workers: 16,
+        rule: "complete enumeration of {set(path), put(path), set_temp_file, put_temp_file, ensure miss, get_or_update miss, Replace on primary hit, Replace on secondary hit, Promote from a read-only level} x writer {plain, sharded} x value size {17, 8193 (quick) / 1, 17, 4096, 8193, 70000 (thorough)} x key {absent, present} x auto_sync {on, off} x 4 trailing operation lists (get, touch, put, set, maintenance-firing set); for each fault-free run: every fsync call failing in turn (EIO, one shot) and a peer removing the key's entry immediately before every filesystem call of the operation; plus generated trailing histories; non-trivial = a publication event occurred or the injected point was reached; distinct by hash of the case",
+        run: kvlib::c03::run,
+        replay: kvlib::c03::replay,
+        assumptions: &["history invariant on the intercepted trace, per inode: last write/copy_file_range/ftruncate/O_TRUNC < successful fsync < rename/link that makes it visible; no write bit at the moment of publication (stat taken by the shim right before the call); no failed fsync before publication; no write/truncate/chmod/fchmod after visibility", "the application's own writes into its source files happen before the library is called and are not traced", "ordering is checked, not power loss itself"],
     }]
 }
 
@@ -296,11 +314,18 @@ fn orchestrate(id: &str, tier: &str) -> i32 {
             new_violations.push(v.clone());
         }
     }
-    // expected-but-absent known findings are still announced (they are listed, not re-derived)
-    let mut printed = std::collections::BTreeSet::new();
-    for (sig, detail) in &known_hits {
-        if printed.insert(sig.clone()) {
-            println!("KNOWN-FINDING: property={} {} — {}", id, sig, detail.replace('\n', " "));
+    // every listed (status=known) finding of this property is announced, reproduced in this run or not
+    if let Some(list) = known["findings"].as_array() {
+        for f in list.iter().filter(|f| f["property"] == id && f["status"] == "known") {
+            let sig = f["signature"].as_str().unwrap_or("");
+            let hits = merged.violations.iter().filter(|v| v.signature == sig).count();
+            println!(
+                "KNOWN-FINDING: property={} {} — {} [{}]",
+                id,
+                sig,
+                f["what"].as_str().unwrap_or(""),
+                if hits > 0 { format!("reproduced in this run; {} occurrence(s) excluded from the search", merged.excluded_known) } else { "not reproduced in this run".to_string() }
+            );
         }
     }
 
